@@ -181,6 +181,7 @@ def dispatch (op : String) (args : List Sexp) : String :=
   | "c20.abs2lef" => "unsupported"
   | "c20.lefrt" => "unsupported"
   | "c20.dup" => "unsupported"
+  | "c20.purphist" => "unsupported"
   | "serde.gds" => "unsupported"
   | "serde.gdsbytes" => "unsupported"
   | "serde.lef" => "unsupported"
